@@ -599,8 +599,16 @@ func loopRule(p *load.Program, s *oblig.Set) {
 			}
 		}
 	}
+	anyScanned := false
+	for _, r := range all {
+		if r.scanned {
+			anyScanned = true
+		}
+	}
 	if badCount == "" && ncount > 0 {
 		s.OK("P4b", keyb, pos, "every strings.Count runs on the line as read, and the accumulated lines are handed to the parser unchanged")
+	} else if badCount == "" && anyScanned {
+		s.OK("P4b", keyb, pos, "the driver scans the bytes of the line as read itself, and the accumulated lines are handed to the parser unchanged")
 	} else {
 		s.Bad("P4b", keyb, pos, "the open-block / open-quote / open-bracket balance is computed on a modified copy of the line ("+badCount+"): what is counted is not what is parsed")
 	}
